@@ -45,6 +45,8 @@ def build_fs(rng, scratch):
         (root / rel).write_bytes(data)
         files[rel] = data
     (outside / "secret.txt").write_bytes(CANARY + b" secret")
+    (scratch / "src root-private").mkdir()          # a sibling whose name starts with the root's name
+    (scratch / "src root-private" / "secret.txt").write_bytes(CANARY + b" prefix sibling")
     (scratch / "sibling.txt").write_bytes(CANARY + b" sibling")
     os.symlink(root / "top.txt", root / "a" / "link-inside.txt")
     os.symlink(outside / "secret.txt", root / "a" / "link-outside.txt")
@@ -55,7 +57,7 @@ def build_fs(rng, scratch):
 
 URLS = ["img%201.png", "img 1.png", "./img%201.png", "sub/data%231.txt", "sub/data#1.txt", "../b/file%2520x.bin", "../top.txt", "/top.txt", "/a/img%201.png",
         "link-inside.txt", "link-outside.txt", "../b/dir-outside/secret.txt", "../../outside/secret.txt", "../../sibling.txt", "/../sibling.txt",
-        "%2e%2e/%2e%2e/outside/secret.txt", "missing.png", "sub/", "sub", ".", "", "#frag", "img%201.png#frag", "img%201.png?q=1", "http://example.com/x.png",
+        "%2e%2e/%2e%2e/outside/secret.txt", "../../src%20root-private/secret.txt", "/../src%20root-private/secret.txt", "missing.png", "sub/", "sub", ".", "", "#frag", "img%201.png#frag", "img%201.png?q=1", "http://example.com/x.png",
         "//example.com/x.png", "mailto:a@b", "data:text/plain,hi", "%C3%A9.svg", "é.svg", "sub/../img%201.png", "/a/../top.txt", "a%00b", "recipe.md", "../a/recipe.md#top"]
 
 
@@ -224,8 +226,34 @@ def check_site_link(rng, url):
         shutil.rmtree(scratch, ignore_errors=True)
 
 
+def check_rebuild(rng):
+    """a second generation into the same output directory still gives byte-identical copies"""
+    out = []
+    scratch = gen_site.scratch_root()
+    try:
+        root, outside, files = build_fs(rng, scratch)
+        (root / "a" / "recipe.md").write_text("# R for 2\n\n    1 x\n\n![I](img%201.png)\n\n[L](../top.txt)\n")
+        site_out = scratch / "out"
+        generate_static_site(root, site_out, 2)
+        for rel in ("a/img 1.png", "top.txt"):
+            old = (root / rel).read_bytes()
+            new = bytes((b + 1) % 256 for b in old)        # same size, different content
+            (root / rel).write_bytes(new)
+            os.utime(root / rel, (1000000000, 1000000000))   # and an old modification time (mv / cp -p / archive restore)
+        generate_static_site(root, site_out, 2)
+        for rel in ("a/img 1.png", "top.txt"):
+            if (site_out / "assets" / rel).read_bytes() != (root / rel).read_bytes():
+                out.append(("C16:asset-copy-stale-after-rebuild", "assets/%s differs from the source after regenerating into the same directory" % rel))
+        return out
+    finally:
+        shutil.rmtree(scratch, ignore_errors=True)
+
+
 def oracle(run):
     rng = run.rng
+    run.case(("oracle-rebuild",), True, kind="rebuild")
+    for sig, detail in check_rebuild(rng):
+        run.violate(sig, detail, {"rebuild": True})
     urls = list(URLS)
     if run.tier == "thorough":
         urls = urls * 3
@@ -242,6 +270,11 @@ def oracle(run):
 
 def replay(run, obj):
     import random
+    if obj["replay"].get("rebuild"):
+        res = check_rebuild(random.Random(0))
+        for x in res:
+            print(*x)
+        return bool(res)
     res = check_site_link(random.Random(0), obj["replay"]["url"])
     for x in res:
         print(*x)
